@@ -236,6 +236,7 @@ def rule_consume(ctx: Ctx):
         rep.check(outcomes.get(need, 0) > 0, "C07.consume", fn.loc(), f"the positional phase has a {need} outcome", fn.key, f"no path with outcome {need}")
     # keyword phase: every parameter is recorded, skipped because it is *args, or looked up in kwargs
     n_kw = 0
+    varargs_leak = []
     for p in paths:
         if p.kind != "return":
             continue
@@ -255,6 +256,10 @@ def rule_consume(ctx: Ctx):
                 if e.kind == "branch" and show(e.term) == f"{elem}.kind == Parameter.VAR_POSITIONAL" and e.x["taken"]:
                     ok = True
                 if e.kind == "call" and show(e.term.func) == "kwargs.pop" and e.term.args and show(e.term.args[0]) == f"{elem}.name":
+                    not_varargs = any(b.kind == "branch" and show(b.term) == f"{elem}.kind == Parameter.VAR_POSITIONAL" and b.x["taken"] is False
+                                      for b in seg if b.idx < e.idx)
+                    if not not_varargs:
+                        varargs_leak.append(e)
                     nxt = evs[e.idx + 1] if e.idx + 1 < len(evs) else None
                     if nxt is not None and nxt.kind == "throw":
                         ok = True  # no value for it: left to its default
@@ -264,6 +269,12 @@ def rule_consume(ctx: Ctx):
             rep.check(ok, "C07.consume", it.loc(), "keyword phase: a parameter is recorded as **kwargs, skipped as *args, or filled from the "
                       "same-named keyword argument", fn.key, "keyword-phase iteration without a defined outcome")
     rep.floor("C07.consume", "keyword-phase iterations (over all paths)", n_kw, 8)
+    if varargs_leak:
+        e = varargs_leak[0]
+        rep.violation("C07.consume", e.loc(), "keyword phase: a `*args` parameter can be filled from a same-named keyword argument "
+                      "(a user keyword called like the var-positional parameter is spread into the positional arguments)", fn.key, norm_stmt(e.node))
+    else:
+        rep.ok("C07.consume", fn.loc(), "keyword phase: a same-named keyword is looked up only for parameters that are not *args")
     # the leftovers
     for p in paths:
         if p.kind != "return":
